@@ -51,6 +51,9 @@ CLAIMED = {
  "C12": dict(engine="hier", design="5 C12, App. B",
    technique="routing relation as TLA+ operator Hier.RouteOK over (method, level below the prefix); TLC-enumerated requests under 0-3 segment prefixes executed on the real handlers with recording backends; real clients run the discovery chain over a real HTTP server; judged by TLC",
    text="Every (CalDAV|CardDAV, prefix of 0-2 (thorough 3) segments, with/without trailing slash, path of level 0-5 on the current user's chain and on foreign chains, request trailing slash, method, PROPFIND Depth) request: the backend operation of that level must be invoked with the request path byte for byte, MKCOL only at collection level else 403 without create call, foreign principal / home-set PROPFIND exposes no href of the current user; the clients' discovery chain from the mount root and via the well-known redirect returns exactly the backend's principal, home set, collections and objects for every prefix x layout; three segment concretisations incl. segments equal to or anagrams of the prefix's and names needing escaping."),
+ "C13": dict(engine="robust", design="5 C13",
+   technique="request classification (Malformed / grey / well-formed) and structure-aware XML mutation as TLA+ operators (Robust); TLC enumerates the request universe with its classification and every single-edit mutant of representative valid documents; real handlers with recording backends; judged by TLC",
+   text="15 528 requests (4 servers x 14 methods incl. unknown x hierarchy levels x Depth classes x 6 Content-Type classes x 8 body classes, COPY/MOVE x Depth x Overwrite x Destination classes), 493 single-edit mutants (delete / duplicate / rename element, swap namespace, drop / rename / corrupt attribute, alter text at every node) of calendar-query, calendar-multiget, addressbook-query, addressbook-multiget, propfind and mkcol documents in two lexical styles, every truncation of the valid documents and seeded random bytes: no panic, a complete response; malformed => 4xx and no create / update / delete backend call (file server: directory unchanged); mutated documents never 5xx."),
  "C14": dict(engine="davwire", design="5 C14",
    technique="client outcome classification as TLA+ operator DavWire.ClientOutcomeOK; TLC enumerates (method, status, content type, body class, failure placement) cases; real clients driven with a scripted HTTPClient; observations judged by TLC",
    text="All 23 public client methods of the three packages x status codes (35 representative in quick, all of 100-599 in thorough) x 6 content types x 7 body classes (valid, empty, wrong root, truncated at a varying offset, garbage, HTML, DAV:error) plus per-response / per-propstat failure placements inside valid multi-status documents: error iff not 2xx / not 207 where required / body not interpretable / a failing response or propstat (a 404 response of sync-collection is a deletion; an optional property under 404 is absent, not an error); the error carries the status code and the DAV:error condition; no panic, no hang (10 s watchdog), no data with an error."),
@@ -112,6 +115,9 @@ m = {
   {"name": "xmlprims", "path": "spec/Xml.tla spec/XmlGen.tla spec/XmlJudge.tla spec/Prims.tla spec/PrimsJudge.tla harness/overlay lib/checks_xml.py",
    "serves_properties": ["C15", "C16"],
    "kind_free_text": "namespace scoping and primitive grammars in TLA+; recorders injected into the repository's packages with go test -overlay; TLC judge"},
+  {"name": "robust", "path": "spec/Robust.tla spec/RobustGen.tla spec/RobustJudge.tla harness/cmd/robrec lib/checks_robust.py",
+   "serves_properties": ["C13"],
+   "kind_free_text": "malformedness classification and XML mutation operators in TLA+; TLC enumerates requests and mutants; real handlers; TLC judge"},
   {"name": "davtree", "path": "spec/DavTree.tla spec/DavTreeMC.tla spec/DavSim.tla spec/DavJudge.tla harness/cmd/davrec lib/checks_dav.py",
    "serves_properties": ["C01", "C02", "C03", "C04", "C17"],
    "kind_free_text": "TLA+ resource-tree specification; TLC model check + case generation; Go recorder on the real webdav.Handler; TLC trace-validation judge"},
